@@ -57,7 +57,11 @@ func genSQLStore(t *rapid.T, rec *hx.Rec, variable bool) *storeCase {
 				break
 			}
 		}
-		if string(twin) != schema[0].Name {
+		clash := false
+		for i := 2; i < len(schema); i++ {
+			clash = clash || schema[i].Name == string(twin)
+		}
+		if string(twin) != schema[0].Name && !clash {
 			schema[1].Name = string(twin)
 			rec.Class("schema-with-names-differing-only-in-case", 1)
 		}
